@@ -460,8 +460,8 @@ class PathAI:
         # vector / fp / atomic / anything else: opaque but dependence-preserving
         return ("op", op) + tuple(self.val(x, env) for x in ops)
 
-    def _may_write(self, e, r, escaped):
-        """may call event e write the object rooted at r?"""
+    def _may_write(self, e, r, escaped, off=None, size=0):
+        """may call event e write bytes [off, off+size) of the object rooted at r?"""
         c = e.callee
         name = e.callee_name()
         if c[0] == "ext":
@@ -469,34 +469,78 @@ class PathAI:
                 return False
             if name and name.startswith("llvm.") and name not in ("memcpy", "memmove", "memset"):
                 return False
-        if r[0] == "alloca" and r not in escaped:
-            wr = None
-            if self.writers is not None and c[0] == "fn":
-                wr = self.writers.writes_params(c[1])
-            for i, a in enumerate(e.args):
-                if T.root(a) == r:
-                    if wr is None or i in wr:
+        if c[0] == "asm":
+            from . import asmfx
+            fx = asmfx.parse(c[1], self.fn.insts[e.iid]["callee"][2])
+            if not fx["opaque"]:
+                return any(i < len(e.args) and T.root(e.args[i]) == r for i in fx["writes"])
+        targets = None
+        if c[0] == "fn":
+            targets = [c[1]]
+        elif c[0] == "ind" and self.writers is not None:
+            tg, complete = self.writers.resolve_indirect(self.fn, self.fn.insts[e.iid])
+            if complete:
+                targets = tg
+        direct = False     # may the callee reach the object through one of its arguments?
+        for i, a in enumerate(e.args):
+            ra, aoff = _parts(a)
+            if ra != r:
+                continue
+            if targets is None or self.writers is None:
+                if c[0] == "ext":
+                    from .callgraph import ext_writes
+                    w = ext_writes(name)
+                    if w is not None and i not in w:
+                        continue
+                return True
+            for t in targets:
+                for lo, hi in self.writers.ranges().writes(t, i):
+                    if off is None or aoff is None or hi >= (1 << 59):
                         return True
+                    if aoff + lo < off + size and off < aoff + hi:
+                        return True
+        if r[0] == "alloca":
+            if r in escaped:
+                # reachable through memory the callee may know about
+                if targets is not None and self.writers is not None:
+                    return any(self.writers.writes_unknown(t) for t in targets)
+                return c[0] != "ext" or name not in PURE_EXT
             return False
-        if c[0] == "fn" and self.writers is not None:
-            wr = self.writers.writes_params(c[1])
-            if r[0] in ("arg", "alloca"):
+        if r[0] == "g":
+            if targets is not None and self.writers is not None:
+                return any(self.writers.may_write_global(t, r[1]) for t in targets)
+            return c[0] != "ext"
+        # parameter-rooted or unknown memory: any callee that writes through unknown pointers or
+        # through pointer arguments that may alias it
+        if targets is not None and self.writers is not None:
+            for t in targets:
+                if self.writers.writes_unknown(t):
+                    return True
+                wp = self.writers.writes_params(t)
                 for i, a in enumerate(e.args):
-                    if i in wr and T.root(a)[0] not in ("g",):
+                    if i in wp:
                         ra = T.root(a)
-                        if ra == r or ra[0] not in ("alloca",):
-                            return True
-                if r[0] == "alloca":
-                    return self.writers.writes_unknown(c[1])
-                return self.writers.writes_unknown(c[1])
-            if r[0] == "g":
-                return self.writers.may_write_global(c[1], r[1])
+                        if ra[0] not in ("alloca", "g") and ra != r:
+                            return True     # another unknown pointer may alias r
+            return False
+        if c[0] == "ext":
+            from .callgraph import ext_writes
+            w = ext_writes(name)
+            if w is None:
+                return True
+            return any(i < len(e.args) and T.root(e.args[i])[0] not in ("alloca", "g") for i in w)
         return True
+
+    def _fresh(self, r):
+        if r[0] != "call":
+            return False
+        c = self.fn.insts[r[1]].get("callee")
+        return bool(c) and c[0] == "g" and c[1] in ("malloc", "calloc", "mmap", "aligned_alloc", "__errno_location")
 
     def _load(self, ins, iid, oc, env, events, escaped):
         addr = self.val(ins["ops"][0], env)
         size = ins["size"]
-        r = T.root(addr)
+        r, off = _parts(addr)
         res = None
         if not ins.get("vol"):
             for e in reversed(events):
@@ -504,25 +548,27 @@ class PathAI:
                     if e.addr == addr and e.size == size:
                         res = e.val
                         break
-                    er = T.root(e.addr)
-                    if er == r or er[0] not in ("alloca", "g") or r[0] not in ("alloca", "g"):
-                        # same object (different or unknown offset) or unknown aliasing
-                        if er == r and e.addr[0] == "gep" and addr[0] == "gep" and not e.addr[3] \
-                                and not addr[3] and (e.addr[2] + e.size <= addr[2] or addr[2] + size <= e.addr[2]):
-                            continue  # disjoint constant ranges of one object
-                        if er != r and er[0] in ("alloca", "g") and r[0] in ("alloca", "g"):
-                            continue
-                        if er != r and (er[0] == "alloca" and er not in escaped):
-                            continue
-                        if er != r and (r[0] == "alloca" and r not in escaped):
-                            continue
+                    er, eoff = _parts(e.addr)
+                    if er == r:
+                        if eoff is not None and off is not None and \
+                                (eoff + e.size <= off or off + size <= eoff):
+                            continue        # disjoint constant ranges of one object
                         break
+                    # different roots: distinct named objects never alias; an unescaped local is
+                    # not reachable through any other pointer; a fresh heap block is a new object
+                    if er[0] in ("alloca", "g") and r[0] in ("alloca", "g"):
+                        continue
+                    if self._fresh(er) or self._fresh(r):
+                        continue
+                    if (er[0] == "alloca" and er not in escaped) or (r[0] == "alloca" and r not in escaped):
+                        continue
+                    break
                 elif e.kind == "load":
                     if e.addr == addr and e.size == size and not e.vol:
                         res = e.res
                         break
                 elif e.kind == "call":
-                    if self._may_write(e, r, escaped):
+                    if self._may_write(e, r, escaped, off, size):
                         break
                 elif e.kind == "loophead":
                     allocas, other = e.args
@@ -581,6 +627,18 @@ class PathAI:
         if e.res is not None:
             env[iid] = e.res
         return noret, escaped
+
+
+def _parts(addr):
+    """(root object, constant byte offset or None)"""
+    if addr[0] == "gep":
+        base = addr[1]
+        if base[0] in ("alloca", "g", "arg", "call", "load", "havoc"):
+            return base, (None if addr[3] else addr[2])
+        return T.root(base), None
+    if addr[0] in ("alloca", "g", "arg", "call", "load", "havoc"):
+        return addr, 0
+    return T.root(addr), None
 
 
 _cache = {}
